@@ -269,7 +269,38 @@ def c14_strategy(tier, rng):
         else:
             viol.append({"obligation": "C14.strategy.%s" % name, "inputs": {"strategy": name}, "observed": str(got),
                          "required": "none: all switches off; all: all on"})
-    return {"obligations": obl, "discharged": dis, "violations": viol, "cases": obl, "exhaustive": True, "bound": "6 strategies",
+    # wiring: the switch `correct_<x>` that process_events reads is set from the field `<x>` of the preset (the table in the source, read
+    # from the AST: namedtuple field names and the constant rows), and the rows the documentation pins down are as documented
+    try:
+        fdef = next(n for n in ast.walk(ast.parse(open(os.path.join(front.REPO, "isoquant.py")).read()))
+                    if isinstance(n, ast.FunctionDef) and n.name == "set_splice_correction_options")
+        nt = next(n for n in ast.walk(fdef) if isinstance(n, ast.Call) and ast.unparse(n.func) == "namedtuple")
+        fields = list(ast.literal_eval(nt.args[1]))
+        table_node = next(n.value for n in ast.walk(fdef) if isinstance(n, ast.Assign) and isinstance(n.value, ast.Dict)
+                          and all(isinstance(v, ast.Call) for v in n.value.values))
+        table = {ast.literal_eval(k): dict(zip(fields, [ast.literal_eval(x) for x in v.args])) for k, v in zip(table_node.keys, table_node.values)}
+    except (StopIteration, ValueError, SyntaxError) as e:
+        table, fields = None, []
+        viol.append({"obligation": "C14.strategy_wiring", "inputs": None, "observed": "preset table not readable: %r" % e, "required": "table", "undecided": True})
+    if table:
+        documented = {"none": set(), "all": set(fields), "conservative_ont": {"fuzzy_junctions", "skipped_exons"}}
+        for name, row in sorted(table.items()):
+            a = types.SimpleNamespace(splice_correction_strategy=name)
+            mod.set_splice_correction_options(a)
+            for fld in fields:
+                obl += 1
+                got = getattr(a, "correct_" + fld, None)
+                want = row[fld]
+                if name in documented and want != (fld in documented[name]):
+                    viol.append({"obligation": "C14.strategy_table.%s.%s" % (name, fld), "inputs": {"strategy": name, "switch": fld}, "observed": str(want),
+                                 "required": "documented: %s enables exactly %s" % (name, sorted(documented[name]))})
+                elif got is not want:
+                    viol.append({"obligation": "C14.strategy_wiring.%s.%s" % (name, fld), "inputs": {"strategy": name, "switch": fld},
+                                 "observed": "args.correct_%s = %r, the preset's %s = %r" % (fld, got, fld, want),
+                                 "required": "each correction switch is set from the preset field of the same name"})
+                else:
+                    dis += 1
+    return {"obligations": obl, "discharged": dis, "violations": viol, "cases": obl, "exhaustive": True, "bound": "6 strategies x 6 switches",
             "samples": [{"strategy": "none"}]}
 
 
